@@ -11,7 +11,7 @@ THEOREMS = ["C19_union_sound", "C19_union_sound_any_fuel", "C19_union_exact_vs_j
             "C19_superset_sound", "C19_superset_exact_any_refuted",
             "C19_insert_sound", "C19_negidx_insert_refuted", "C19_insert_coerce_required_refuted",
             "C19_insert_optional_hole_refuted",
-            "C19_remove_sound_fields_partial", "C19_remove_shift_refuted", "C19_remove_inside_unknown_refuted",
+            "C19_remove_sound", "C19_remove_shift_refuted", "C19_remove_inside_unknown_refuted",
             "C19_remove_negidx_panic_refuted", "C19_merge_union_sound", "C19_merge_overwrite_refuted",
             "C19_domains_nonvacuous"]
 IMPORTS = ("From Coq Require Import List ZArith String.\n"
@@ -25,12 +25,11 @@ MANIFEST = {
             "union/merge(Union) contain every member of their operands (under union_compat), at_path/get of a member "
             "is a member of the kind's view of the path (unconditionally without negative indices), is_superset implies "
             "containment (no_exact_any), Kind::insert is sound on the ins_ok domain (fields, padding, coercion, in-range "
-            "negative indices), Kind::remove on field-terminated paths without compaction. Ten classes where the code "
+            "negative indices), Kind::remove on the remove_ok domain (no nested compaction, at most one known element behind a removed one). Ten classes where the code "
             "is unsound are refuted by vm_compute witnesses and recorded as known findings. The model is tied to the "
             "code by running the six operations, the value-level CRUD and a Rust-side membership function on generated "
             "(kind, value-from-kind, path) cases through both the implementation and the Gallina definitions.",
-    "note": "Partial: remove for index-terminated paths (remove_shift) and merge with Overwrite are checked by the "
-            "correspondence/oracle run only; fuel adequacy of the kind-recursive functions is not proved (theorems hold "
+    "note": "Partial: merge with Overwrite is checked by the correspondence/oracle run only (refuted in general); fuel adequacy of the kind-recursive functions is not proved (theorems hold "
             "for every fuel). Trusted: Coq kernel + vm_compute, the hand-written models Model/Kind.v, Model/KindCrud.v "
             "(tied by correspondence), harness Kind codec, Python generator. No axioms.",
     "design_ref": "DESIGN.md section 5 C19",
